@@ -233,7 +233,6 @@ type combo struct{ variant, path int }
 
 var allCombos = []combo{{varDiff, pathInproc}, {varCompare, pathInproc}, {varDiff, pathHS}, {varCompare, pathHS}, {varDiff, pathDM}, {varDiff, pathKV}, {varCompare, pathKV}}
 var inprocCombos = allCombos[:2]
-var wireCombos = allCombos[2:]
 var lightWireCombos = []combo{{varDiff, pathHS}, {varCompare, pathKV}}
 
 type side struct {
@@ -401,7 +400,7 @@ func (r *reporter) checkPair(p *pairCase, combos []combo) {
 	c := r.c
 	e := setDifference(p.local.m, p.remote.m)
 	baseKeys := map[string]bool{}
-	for ci, cb := range combos {
+	for _, cb := range combos {
 		o := runCombo(p.local, p.remote, p.pr, cb, false)
 		c.Count("diffs."+varNames[cb.variant]+"."+pathNames[cb.path], 1)
 		c.Count("ranges_round_trips", int64(o.rec.Rounds))
@@ -411,16 +410,17 @@ func (r *reporter) checkPair(p *pairCase, combos []combo) {
 		if o.wireCalls > 0 {
 			c.Count("wire_calls", int64(o.wireCalls))
 		}
-		isBase := ci == 0
+		// a key seen in process keeps its name on the wire paths; a problem that shows only on a
+		// wire path is named after the path, so that it cannot hide behind a known in-process finding
 		keyOf := func(k string) string {
-			if isBase {
+			if cb.path == pathInproc {
 				baseKeys[k] = true
 				return k
 			}
 			if baseKeys[k] {
 				return k
 			}
-			return "only-" + varNames[cb.variant] + "-" + pathNames[cb.path] + ":" + k
+			return "only-" + pathNames[cb.path] + ":" + k
 		}
 		if o.wireMismatch > 0 {
 			r.violation(keyOf("wire:result-count-differs-from-range-count:"+pathNames[cb.path]), "a wire response carried a different number of results than ranges were requested",
@@ -566,7 +566,7 @@ func (Prop) RunCase(c *lib.Case) {
 		if c.Rng.Intn(2) == 0 {
 			rebuild(g, params{32, 256})
 		}
-		runGenerated(c, r, g, wireCombos)
+		runGenerated(c, r, g, allCombos)
 	case "degenerate":
 		runDegenerate(c, r)
 	case "large":
